@@ -482,7 +482,7 @@ impl LockManager {
         let timeout_ms = self.default_timeout.as_millis() as u64;
 
         for key in keys {
-            locks.insert(
+            let previous = locks.insert(
                 key.clone(),
                 KeyLock {
                     key: key.clone(),
@@ -492,6 +492,15 @@ impl LockManager {
                     timeout_ms,
                 },
             );
+            // Taking over the expired lock of another transaction: that transaction no
+            // longer holds the key, so it must leave its reverse index as well.
+            if let Some(previous) = previous {
+                if previous.tx_id != tx_id {
+                    if let Some(tx_keys) = tx_locks.get_mut(&previous.tx_id) {
+                        tx_keys.retain(|k| k != key);
+                    }
+                }
+            }
         }
 
         tx_locks
@@ -734,7 +743,7 @@ impl LockManager {
         let timeout_ms = self.default_timeout.as_millis() as u64;
 
         for key in keys {
-            locks.insert(
+            let previous = locks.insert(
                 key.clone(),
                 KeyLock {
                     key: key.clone(),
@@ -744,6 +753,15 @@ impl LockManager {
                     timeout_ms,
                 },
             );
+            // Taking over the expired lock of another transaction: that transaction no
+            // longer holds the key, so it must leave its reverse index as well.
+            if let Some(previous) = previous {
+                if previous.tx_id != tx_id {
+                    if let Some(tx_keys) = tx_locks.get_mut(&previous.tx_id) {
+                        tx_keys.retain(|k| k != key);
+                    }
+                }
+            }
         }
 
         tx_locks
